@@ -44,7 +44,8 @@ register(Contract(
     key=FSP + "get_next_line", properties=["C14"],
     requires=["self.__read_index >= 0"],
     ensures=[f"implies(old(self.__read_index) >= len({LINES}), result is None and self.__read_index == old(self.__read_index))",
-             f"implies(old(self.__read_index) < len({LINES}), result is {LINES}[old(self.__read_index)] and self.__read_index == old(self.__read_index) + 1)"],
+             f"implies(old(self.__read_index) < len({LINES}), result is {LINES}[old(self.__read_index)] and self.__read_index == old(self.__read_index) + 1)",
+             f"implies(old(self.__read_index) < len({LINES}), result is not None)"],
     modifies=["self.__read_index"],
 ))
 
